@@ -59,7 +59,13 @@ func ZZ_H12a_IsFailure() {
 	anyMatch := false
 	errorCond := false
 	for i := 0; i < n; i++ {
-		switch zzvrt.Choose("kind", 5) {
+		switch zzvrt.Choose("kind", 6) {
+		case 5:
+			p.HandleErrorTypes(&zzValErr{}) // pointer target for a value-receiver error type (as with errors.As)
+			errorCond = true
+			if ec.typeVal {
+				anyMatch = true
+			}
 		case 0:
 			p.HandleErrors(zzErrA)
 			errorCond = true
@@ -122,7 +128,12 @@ func ZZ_H12b_IsAbortable() {
 	anyMatch := false
 	undecided := false
 	for i := 0; i < n; i++ {
-		switch zzvrt.Choose("kind", 5) {
+		switch zzvrt.Choose("kind", 6) {
+		case 5:
+			p.AbortOnErrorTypes(&zzValErr{})
+			if ec.typeVal {
+				anyMatch = true
+			}
 		case 0:
 			p.AbortOnErrors(zzErrA)
 			if ec.isA {
